@@ -844,6 +844,62 @@ fn run_c01(ctx: &mut Ctx, rng: &mut Rng, seeds: &[Vec<u8>], n: u64, shard: usize
     }
 }
 
+/// what may follow a buffer: nothing the verdict on the buffer may depend on.  Whole responses, several,
+/// a response cut anywhere, an unfinished literal (a header announcing more bytes than follow - with sizes
+/// from the usual boundaries and from /repo's own constants, so that the total crosses any threshold of
+/// a 'big buffer' path), long filler, random bytes.
+fn continuation(rng: &mut Rng, seeds: &[Vec<u8>], conts: &[Vec<u8>]) -> Vec<u8> {
+    let size = |rng: &mut Rng, cap: u64| -> usize {
+        match vh_proto::srcdict::int_le(rng, cap, 3) {
+            Some(c) => c as usize,
+            None => *rng.pick(&[0usize, 1, 5, 63, 64, 100, 255, 256, 1023, 1024, 4095, 4096, 4097, 8192, 16384, 65535, 65536, 100_000]),
+        }
+    };
+    match rng.below(8) {
+        0 => rng.pick(conts).clone(),
+        1 => rng.pick(seeds).clone(),
+        2 => {
+            let mut v = vec![];
+            for _ in 0..rng.range(2, 4) {
+                let e: &Vec<u8> = rng.pick(seeds);
+                v.extend_from_slice(e);
+            }
+            v
+        }
+        3 => {
+            let r: &Vec<u8> = rng.pick(seeds);
+            r[..rng.usize(r.len() + 1)].to_vec()
+        }
+        4 | 5 => {
+            // responses, then an unfinished literal
+            let mut v = vec![];
+            for _ in 0..rng.below(3) {
+                let e: &Vec<u8> = rng.pick(seeds);
+                v.extend_from_slice(e);
+            }
+            let n = size(rng, 200_000).max(1);
+            let head: &[u8] = *rng.pick(&[&b"* 2 FETCH (UID 8 BODY[] "[..], b"* 2 FETCH (RFC822 ", b"* LIST () \"/\" ", b"A1 OK [BADCHARSET (", b"* 1 FETCH (ENVELOPE (", b""]);
+            v.extend_from_slice(head);
+            v.extend_from_slice(format!("{{{}}}\r\n", n).as_bytes());
+            let k = match rng.below(4) {
+                0 => 0,
+                1 => n - 1,
+                2 => std::cmp::min(size(rng, 100_000), n - 1),
+                _ => rng.usize(n),
+            };
+            let k = std::cmp::min(k, 70_000);
+            v.extend((0..k).map(|j| b'a' + (j % 26) as u8));
+            v
+        }
+        6 => {
+            let l = std::cmp::min(size(rng, 100_000), 70_000);
+            let c = *rng.pick(b"x \r\n(\"{");
+            vec![c; l]
+        }
+        _ => (0..rng.usize(8)).map(|_| rng.below(256) as u8).collect(),
+    }
+}
+
 fn run_c02(ctx: &mut Ctx, rng: &mut Rng, seeds: &[Vec<u8>], n_valid: u64, n_mut: u64, all_cuts: bool, shard: usize, shards: usize) {
     let conts: Vec<Vec<u8>> = vec![
         b"* 1 EXISTS\r\n".to_vec(),
@@ -875,6 +931,10 @@ fn run_c02(ctx: &mut Ctx, rng: &mut Rng, seeds: &[Vec<u8>], n_valid: u64, n_mut:
         }
         let other = rng.pick(seeds).clone();
         oracle_c02_pair(ctx, &r, &other, "valid+response");
+        for _ in 0..3 {
+            let x = continuation(rng, seeds, &conts);
+            oracle_c02_pair(ctx, &r, &x, "valid+continuation");
+        }
         // every prefix followed by random continuation: verdict INC there, nothing to check; but
         // prefixes that are themselves verdicts (err) must be stable
         for _ in 0..3 {
@@ -887,11 +947,7 @@ fn run_c02(ctx: &mut Ctx, rng: &mut Rng, seeds: &[Vec<u8>], n_valid: u64, n_mut:
         let seed = pick_seed(rng, seeds);
         let other = rng.pick(seeds).clone();
         let (m, kind) = mutate(rng, &seed, &other);
-        let x = match rng.below(3) {
-            0 => rng.pick(&conts).clone(),
-            1 => rng.pick(seeds).clone(),
-            _ => (0..rng.usize(8)).map(|_| rng.below(256) as u8).collect(),
-        };
+        let x = continuation(rng, seeds, &conts);
         oracle_c02_pair(ctx, &m, &x, kind);
         // prefixes of mutants that end in an accepted response
         let v = verdict(&m);
